@@ -26,6 +26,15 @@ const SHAPES: &[&str] = &[
     "enum X { r#type, r#match { r#fn: u8 } }",
     "enum X { A = 1, B = 2 }",
     "union X { a: u8, b: u32 }",
+    "struct X<T>(T) where;",
+    "struct X where { a: u8 }",
+    "enum X<T> where { A(T), B }",
+    "struct X<>(u8);",
+    "struct X<T,>(T,) where T: Copy,;",
+    "enum X<> { A(), B {}, }",
+    "struct X<'a>(&'a u8);",
+    "struct X<const N: usize>([u8; N]);",
+    "struct X<#[cfg(x)] T, #[allow(unused)] 'a>(T);",
     "struct Donn\u{e9}es { \u{e9}t\u{e9}: u8, \u{540d}\u{524d}: String }",
     "enum \u{540d}\u{524d}<\u{3b1}> { \u{3b1}(\u{3b1}), \u{3b2} { \u{e9}: u8 } }",
     "struct X<'a, 'b: 'a, T: 'a + ?Sized, const N: usize = 3>(&'a T, &'b [u8; N]) where 'b: 'a;",
@@ -211,6 +220,9 @@ const EXTRA: &[(&str, &str, &str)] = &[
     ("attr", "Add(dump)", "impl Add for X { type Output = X; }"),
     ("attr", "Add, bound(T)", "impl Add for X { type Output = X; }"),
     ("attr", "Add", "impl<T> Add for T { type Output = T; }"),
+    ("attr", "Add", "impl<> Add<> for X where { type Output = X; }"),
+    ("attr", "Add", "impl<T,> Add<T,> for X<T,> where T: Copy, { type Output = X<T,>; }"),
+    ("attr", "Add, AddAssign", "impl<'a, T> Add<&'a T> for &'a X<T> where for<'b> &'b T: Copy, T: 'a { type Output = X<T>; }"),
     ("attr", "Add", "impl Add for &&X { type Output = X; }"),
     ("attr", "Add", "impl Add for &'a X { type Output = X; }"),
     ("attr", "Add", "impl Add for &mut X { type Output = X; }"),
@@ -308,6 +320,42 @@ pub fn directed() -> Vec<Request> {
             attr: String::new(),
             item: format!("#[derive_ex(PartialOrd, PartialEq)] enum X {{ A {{ #[partial_ord(key = {e})] r#type: (u8, u8) }}, B }}"),
         });
+    }
+    // `key` and `by` together in one helper (either order, or split over two helpers), good and
+    // bad key templates, under every interesting subset of the comparison traits
+    {
+        let keys = [
+            "$", "$.0", "f($)", "{ let $ = 1; 0 }", "|$| 1", "$::K", "x.$", "S { $: 1 }",
+            "{ let __placeholder = 1; 0 }", "__placeholder!()", "match 1 { $ => 2 }",
+        ];
+        let lists = [
+            "Hash", "Eq, PartialEq, Hash", "Ord, PartialOrd, Eq, PartialEq, Hash", "PartialOrd, PartialEq",
+            "Ord, PartialOrd", "Eq, PartialEq",
+        ];
+        for cmp in ["ord", "partial_ord", "eq", "partial_eq", "hash"] {
+            for k in keys {
+                for args in [
+                    format!("key = {k}, by = f"),
+                    format!("by = |a, b| a == b, key = {k}"),
+                    format!("key = {k}, reverse"),
+                    format!("key = {k}, ignore"),
+                    format!("key = {k}, bound(T)"),
+                ] {
+                    for list in lists {
+                        out.push(Request {
+                            mode: Mode::Attr,
+                            attr: list.to_string(),
+                            item: format!("struct X<T>(#[{cmp}({args})] (u8, u8), T);"),
+                        });
+                    }
+                }
+                out.push(Request {
+                    mode: Mode::Derive,
+                    attr: String::new(),
+                    item: format!("#[derive_ex(Ord, PartialOrd, Eq, PartialEq, Hash)] enum X {{ A(#[{cmp}(by = f)] #[ord(key = {k})] #[eq(key = {k}, by = g)] (u8, u8)) }}"),
+                });
+            }
+        }
     }
     // the first of several compared fields carries the helper, in an enum variant and a struct
     for cmp in ["ord", "partial_ord", "eq", "partial_eq", "hash"] {
@@ -409,7 +457,19 @@ pub fn directed() -> Vec<Request> {
     }
     // field- and variant-level #[derive_ex(..)] entries naming traits that are / are not derived
     // at type level, through both entry points
-    for field_list in ["Clone, Default", "Clone(bound(T)), Default(bound(U)), Debug(bound())", "Ord, PartialOrd, Eq, PartialEq, Hash", "Add, Sub, Neg", "Unknown, Clone"] {
+    for field_list in [
+        "Clone, Default",
+        "Clone(bound(T)), Default(bound(U)), Debug(bound())",
+        "Ord, PartialOrd, Eq, PartialEq, Hash",
+        "Add, Sub, Neg",
+        "Unknown, Clone",
+        "Clone, Default, dump",
+        "Clone(dump), Debug(dump)",
+        "Clone(dump), Default, Debug(bound(T), dump), dump",
+        "dump",
+        "bound(T)",
+        "",
+    ] {
         for type_list in ["Clone", "Debug", "Clone, Default, Debug", ""] {
             for item in [
                 format!("struct X<T, U>(#[derive_ex({field_list})] T, U);"),
@@ -418,6 +478,27 @@ pub fn directed() -> Vec<Request> {
                 out.push(Request { mode: Mode::Attr, attr: type_list.to_string(), item: item.clone() });
                 out.push(Request { mode: Mode::Derive, attr: String::new(), item: format!("#[derive_ex({type_list})] {item}") });
             }
+        }
+    }
+    // every unknown / oddly spelled trait name in every trait-name position
+    for name in crate::gen::unknown_traits() {
+        let name = crate::gen::ident_text(name);
+        for (mode, attr, item) in [
+            ("attr", name.clone(), "struct X(u8);".to_string()),
+            ("attr", format!("Clone, {name}, Default"), "enum X { #[default] A, B(u8) }".to_string()),
+            ("attr", format!("{name}(bound(T))"), "struct X<T>(T);".to_string()),
+            ("derive", String::new(), format!("#[derive_ex({name})] struct X(u8);")),
+            ("derive", String::new(), format!("#[derive_ex(Clone)] enum X {{ A(#[derive_ex({name}(bound(T)))] u8) }}")),
+            ("attr", "Clone".to_string(), format!("struct X(#[derive_ex({name})] u8);")),
+            ("attr", name.clone(), "impl Add for X { type Output = X; }".to_string()),
+            ("attr", "Add".to_string(), format!("impl {name} for X {{ type Output = X; }}")),
+            ("attr", "Add".to_string(), format!("impl {name}<u8> for &X {{ }}")),
+        ] {
+            out.push(Request {
+                mode: if mode == "attr" { Mode::Attr } else { Mode::Derive },
+                attr,
+                item,
+            });
         }
     }
     // size extremes: very long identifiers and literals, long lists of short ones
